@@ -3,10 +3,11 @@ package main
 // C17 — peers are reached and authenticated exactly as configured.
 
 func init() {
-	register(&Check{ID: "C17", Level: "fault_enumeration", Rule: c17RuleText + " | certificate matrix (upstream kind x server certificate x tls options) and client-certificate matrix through the real binary, enumerated completely; the certificate matrix runs as directed per-server sequences (upstreams that differ only in their trust settings take turns on one server) followed by two parallel passes; two DoT and two DoH listeners with different client CAs in one proxy: a client served by one of them offers the session ticket it got there to the other (TLS 1.3 and 1.2) and must not be served; a tls section whose ca file does not exist (upstream and listener side) while the system trust store holds another CA: refused at start-up, or nothing is accepted",
+	register(&Check{ID: "C17", Level: "fault_enumeration", Rule: c17RuleText + " | certificate matrix (upstream kind x server certificate x tls options) and client-certificate matrix through the real binary, enumerated completely; the certificate matrix runs as directed per-server sequences (upstreams that differ only in their trust settings take turns on one server) followed by two parallel passes; two DoT and two DoH listeners with different client CAs in one proxy: a client served by one of them offers the session ticket it got there to the other (TLS 1.3 and 1.2) and must not be served; a tls section whose ca file does not exist (upstream and listener side) while the system trust store holds another CA: refused at start-up, or nothing is accepted; DoH peers (http, https, h3) that answer with a redirect to another host and port, which must see neither a connection nor a query",
 		Run: func(c *Ctx) {
 			c17DialMatrix(c)
 			c17Fallback(c)
+			c17Redirect(c)
 			c17Certs(c)
 		}})
 }
